@@ -327,6 +327,33 @@ t("twin-lint-generator-once", "C04 C01", API, "        records = sorted(records,
 b("lint-mutable-default", "C19", DISC, "def _get_uri_prefix_to_luids(\n    *,\n    converter: Converter | None = None,\n", "def _get_uri_prefix_to_luids(\n    *,\n    seen: dict = {},\n    converter: Converter | None = None,\n", "")
 
 
+# ------------------------------------------------------------------------------------- round-4 rules
+b("identifier-hook-strips", "C02 C03 C06 C07", API, "        return identifier\n\n    def expand_reference(", "        return identifier.strip()\n\n    def expand_reference(", "C02-D8 C03-X14 C06-X14 C07-X14")
+b("subconverter-class-no-delimiter", "C09 C02 C07", API, "        return Converter(records, delimiter=self.delimiter)\n", "        return self.__class__(records)\n", "C09-D4 C02-X15 C07-X15")
+t("twin-subconverter-class-with-delimiter", "C09 C02 C07 C10", API, "        return Converter(records, delimiter=self.delimiter)\n", "        return self.__class__(records, delimiter=self.delimiter)\n")
+b("subconverter-dump-exclude-unset", "C01 C09 C10", API, "record.model_copy(deep=True)\n            for record in self.records\n            if any(prefix in prefixes for prefix in record._all_prefixes)", "Record.model_validate(record.model_dump(exclude_unset=True))\n            for record in self.records\n            if any(prefix in prefixes for prefix in record._all_prefixes)", "C01-X13 C09-X13 C10-X13")
+b("merge-case-insensitive-dedupe", "C01 C05 C09", API, "            if uri_prefix_synonym not in into._all_uri_prefixes:", "            if not _in(uri_prefix_synonym, into._all_uri_prefixes, case_sensitive=False):", "C01-X16 C05-D5 C09-D2")
+t("twin-merge-in-helper-case-sensitive", "C01 C05 C09", API, "            if uri_prefix_synonym not in into._all_uri_prefixes:", "            if not _in(uri_prefix_synonym, into._all_uri_prefixes, case_sensitive=True):")
+b("in-helper-half-folded", "C05 C09", API, "    nfa = a.casefold()\n    return any(nfa == b.casefold() for b in bs)\n", "    return a.casefold() in bs\n", "C05-D6 C09-D2")
+b("add-record-percent-format", "C05", API, '                raise ValueError(f"new record already exists and merge=False: {matched}")', '                raise ValueError(f"new record already exists and merge=False: {matched}" " (%s)" % record.prefix)', "C05-D8")
+b("parse-curie-bare-class-raise", "C08", API, "            if strict:\n                raise\n            return None\n", "            if strict:\n                raise NoCURIEDelimiterError from None\n            return None\n", "C08-D2")
+b("index-casefolded-keys", "C06 C02 C07", API, "        self.reverse_prefix_map[record.uri_prefix] = record.prefix\n        self.trie[record.uri_prefix] = record.prefix\n", "        self.synonym_to_prefix.setdefault(record.prefix.casefold(), record.prefix)\n        self.reverse_prefix_map[record.uri_prefix] = record.prefix\n        self.trie[record.uri_prefix] = record.prefix\n", "C06-D2 C02-D4 C07-X7")
+b("add-record-bisect", "C09 C05", API, "            existing_record = next(r for r in self.records if r._key == key)\n", "            import bisect\n            existing_record = self.records[bisect.bisect_left(self.records, key[0], key=lambda r: r.prefix)]\n", "C09-X12 C05-X12")
+b("chain-reduce-no-initial", "C10", API, "    rv = Converter([], delimiter=converters[0].delimiter)\n    for converter in converters:\n        for record in converter.records:\n            rv.add_record(\n                record.model_copy(deep=True), case_sensitive=case_sensitive, merge=True\n            )\n    return rv\n", "    from functools import reduce\n\n    def _two(left: Converter, right: Converter) -> Converter:\n        rv = Converter([], delimiter=left.delimiter)\n        for converter in (left, right):\n            for record in converter.records:\n                rv.add_record(record.model_copy(deep=True), case_sensitive=case_sensitive, merge=True)\n        return rv\n\n    return reduce(_two, converters)\n", "C10-D6")
+b("order-remap-mixed-chain-test", "C11", REC, "    if not set(curie_remapping).intersection(curie_remapping.values()):", "    if not {converter.standardize_prefix(v, passthrough=True) for v in curie_remapping.values()}.intersection(curie_remapping):", "C11-D6")
+b("rewire-owner-by-parse-uri", "C12", REC, "            new_uri_prefix in converter.reverse_prefix_map\n            and new_uri_prefix not in record.uri_prefix_synonyms\n        ):\n            logger.debug(", "            converter.parse_uri(new_uri_prefix, return_none=True) is not None\n            and new_uri_prefix not in record.uri_prefix_synonyms\n        ):\n            logger.debug(", "C12-D6")
+b("epm-writer-nfc", "C14", API, "    path.write_text(\n        json.dumps(\n            [_record_to_dict(record) for record in converter.records],\n            indent=4,\n            sort_keys=True,\n            ensure_ascii=False,\n        )\n    )\n", "    import unicodedata\n\n    path.write_text(\n        unicodedata.normalize(\n            \"NFC\",\n            json.dumps(\n                [_record_to_dict(record) for record in converter.records],\n                indent=4,\n                sort_keys=True,\n                ensure_ascii=False,\n            ),\n        )\n    )\n", "C14-D8")
+b("reference-ne-de-morgan", "C15", API, "    def __lt__(self, other: Reference) -> bool:", "    def __ne__(self, other: Any) -> bool:\n        return not isinstance(other, Reference) or self.prefix != other.prefix and self.identifier != other.identifier\n\n    def __lt__(self, other: Reference) -> bool:", "C15-D1")
+t("twin-reference-ne-negation", "C15", API, "    def __lt__(self, other: Reference) -> bool:", "    def __ne__(self, other: Any) -> bool:\n        return not (self == other)\n\n    def __lt__(self, other: Reference) -> bool:")
+b("file-helper-conversion-in-try", "C16", API, '                row[column] = func(row[column]) or ""\n', '                try:\n                    row[column] = func(row[column]) or ""\n                except LookupError:\n                    pass\n', "C16-D3")
+b("synonym-table-wildcard", "C18", MSU, '    "text/csv": "application/sparql-results+csv",\n}', '    "text/csv": "application/sparql-results+csv",\n    "*/*": DEFAULT_CONTENT_TYPE,\n}', "C18-D10")
+b("discover-skip-precedence", "C19", DISC, 'if uri.startswith("https://github.com") and "issues" in uri:', 'if uri.startswith("https://github.com") and "issues" in uri or "pull" in uri:', "C19-D7")
+t("twin-discover-skip-parenthesised", "C19", DISC, 'if uri.startswith("https://github.com") and "issues" in uri:', 'if uri.startswith("https://github.com") and ("issues" in uri or "pull" in uri):')
+b("w3c-brackets-issubset", "C20", W3C, 'if "[" in curie or "]" in curie:', 'if frozenset("[]").issubset(curie):', "C20-D3")
+t("twin-w3c-brackets-not-isdisjoint", "C20", W3C, 'if "[" in curie or "]" in curie:', 'if not frozenset("[]").isdisjoint(curie):')
+b("w3c-prefix-casefold", "C20", W3C, "return bool(NCNAME_RE.fullmatch(prefix))", "return bool(NCNAME_RE.fullmatch(prefix.casefold()))", "C20-D1")
+
+
 def apply_unified_diff(files: dict, diff_text: str) -> dict | None:
     """Apply a unified diff (git format, paths a/src/curies/...) to an in-memory tree; None if it does not fit."""
     import re as _re
